@@ -17,7 +17,7 @@ Init == /\ pic \in Pics /\ pc = "embedded0" /\ got = 0 /\ expected = 0 /\ embedd
 
 \* the typed reply of one picture command: [k: "some" | "none" | "err", size, n, mime?, code]
 Reply(emb, off) ==
-  LET x == ExecPic(pic, emb, off, 0, NoDigest) IN
+  LET x == ExecPic(pic, 0, emb, off, 0, NoDigest) IN
   IF ~x.ok THEN [k |-> "err", size |-> 0, n |-> 0, mime |-> FALSE, code |-> x.ls[1].a]
   ELSE IF x.ls = <<>> THEN [k |-> "none", size |-> 0, n |-> 0, mime |-> FALSE, code |-> 0]
   ELSE [k |-> "some", size |-> ValOfDec(x.ls[1].v), n |-> x.ls[Len(x.ls)].a, mime |-> Len(x.ls) = 3, code |-> 0]
